@@ -9,6 +9,7 @@ CONSTANTS
   Layouts = {"gaps", "canon"}
   MultiPre = {"base"}
   MultiLayouts = {"gaps"}
+  MultiStrs = {3, 4, 7}
 INVARIANT GeneratedWellFormed
 INVARIANT ReadInvertsWrite
 INVARIANT CanonIdentity
